@@ -2,6 +2,7 @@ SPECIFICATION Spec
 CONSTANTS
   MaxLen = 3
   GuardMode = "all"
+  CacheBeforeGuard <- NoApis
   NormAfterGuard <- NoApis
   Classes <- AllClasses
 INVARIANTS Confined TypeOK
